@@ -19,8 +19,8 @@ type Hooks struct {
 	Evict    func(db int, key string, memUsed int64, limit uint64)
 	// LockYield is called before an instrumented lock is requested (write = exclusive),
 	// LockNote after it was acquired (acquired = true) and before it is released (acquired = false).
-	LockYield func(m *RWMutex, name string, write bool)
-	LockNote  func(m *RWMutex, write bool, acquired bool)
+	LockYield func(m any, name string, write bool)
+	LockNote  func(m any, write bool, acquired bool)
 }
 
 var installed atomic.Pointer[Hooks]
